@@ -3,10 +3,9 @@
 PROP = {'assumptions': ['Messages are C01-well-formed, within the nesting limit, the receiver size limit and the 32-bit length field (frameOKZ)',
                  'zlib is an opaque pair of functions with inflate(deflate(x)) = x (CodecOK)',
                  'text lines contain no CR/LF/NUL; one terminator (CR LF, LF or CR) per stream',
-                 'raw/SLIP chunks are non-empty except in the last position of a Message (an empty chunk makes the sender drop the rest of its Message: open '
-                 'finding C03-empty-chunk)',
-                 'the link ends drained (grants suffice); both templating ends use the same cache size; template ids do not collide (F7, open)',
-                 'WebSocket payloads up to the receiver limit of 10 MB'],
+                 'a raw/SLIP chunk without bytes contributes nothing (the SLIP decoder drops empty frames: the SLIP unit is the non-empty chunk)',
+                 'the link ends drained (grants suffice); both templating ends use the same cache size',
+                 'WebSocket payloads up to the receiver limit of 10 MB (a bigger Message cannot cross a WebSocket link: open finding C03-ws-10mb)'],
  'engine': 'gw',
  'harnesses': [{'cflags': ['-std=gnu++11',
                            '-O1',
@@ -26,9 +25,9 @@ PROP = {'assumptions': ['Messages are C01-well-formed, within the nesting limit,
          'text, raw, SLIP, WebSocket client->server and server->client with slave gateway and the HTTP handshake whole / in halves / cut at any byte / byte by '
          'byte, C mini/micro <-> C++) under one schedule (per call: maxBytes and the byte count of every Read/Write, 0 = would block; any interleaving of '
          'queueing/output/input), then drained; plus `wire` (sender bytes), `feed` (arbitrary bytes into a receiver) and `share` (one reuse-tagged Message on '
-         'two links, every encoding).  The Lean model executes the same schedule step by step for binary/text/raw/SLIP (state after the scheduled part, '
-         'deliveries, error flag must agree), predicts deliveries and wire bytes for the rest.  Direct oracle on every run op: delivered units = sent units by '
-         'flattened bytes, no receiver error, link drains.  distinct = distinct case bodies',
+         'two links, every encoding) and `bigws` (one Message of a given size through a WebSocket pair).  The Lean model executes the same schedule step by '
+         'step for binary/text/raw/SLIP (state after the scheduled part, deliveries, error flag must agree), predicts deliveries and wire bytes for the rest.  '
+         'Direct oracle on every run op: delivered units = sent units by flattened bytes, no receiver error, link drains.  distinct = distinct case bodies',
  'trusted_base': ['hand-written Lean model of Message::Flatten/Unflatten/FlattenedSize and the public mutators (lean/MuscleModel/Wire)',
                   'type codes, protocol version, per-type wire sizes and the nesting limit are regenerated from /repo on every run (tools/extract_consts.cpp)',
                   'gateway sizes (header 8, scratch buffer 2048, text read 2047, raw read 8192, SLIP bytes) are measured on the compiled code on every run '
@@ -44,10 +43,11 @@ PROP = {'assumptions': ['Messages are C01-well-formed, within the nesting limit,
                   'on the real code']}
 
 TEXT = {'design_ref': 'DESIGN.md section 4, C03',
- 'note': 'Not proved, only validated by correspondence/oracle: history dependence of the zlib streams, templating cache protocol, WebSocket receive loop and '
-         'handshake, C gateway call loops.  Hypotheses explicit in the statements (frameOKZ, CodecOK, clean lines, empty chunk ends a Message, drained link).  '
-         'Open findings kept as corpus/C03/gw-known-*.ops and listed in known_findings.json: F7 (template id collision), C03-empty-chunk.  Fixed and guarded '
-         'by corpus/C03/gw-regress-*.ops and mutants/C03/r*.diff: F24, WebSocket client mask byte order, WebSocket handshake under a would-block.',
+ 'note': 'Not proved, only validated by correspondence/oracle: history dependence of the zlib streams, templating cache protocol (incl. layouts whose template '
+         'ids collide), WebSocket receive loop and handshake, C gateway call loops.  Hypotheses explicit in the statements (frameOKZ, CodecOK, clean lines, '
+         'drained link).  Open finding kept as corpus/C03/gw-known-ws-10mb.ops and listed in known_findings.json: C03-ws-10mb (a Message above 10 MB cannot '
+         'cross a WebSocket link).  Fixed and guarded by corpus/C03/gw-regress-*.ops and mutants/C03/r*.diff: F24, WebSocket client mask byte order, WebSocket '
+         'handshake under a would-block, F7 (template id collision), C03-empty-chunk.',
  'technique': 'Lean 4 theorems (receiver state is a function of the consumed byte prefix for every maxBytes/grant schedule; any input chunking gives the same '
               'units; any short-write schedule emits the same bytes; any interleaving; frame round trips plain and zlib-flagged over an opaque codec; '
               'text-line, SLIP and WebSocket frame/mask/length round trips) over a hand-written model of the gateway call loops + differential correspondence '
